@@ -1086,6 +1086,14 @@ func evalCase(c *Ctx, r *Rng, g gCase) {
 			if a.b.err == nil && a.b.pan == "" && a.b.vb.Kind == "profile" {
 				accessorOracle(c, a.b.prof, g, in)
 			}
+			// public accessors of a multi-group profile, with every entry active in turn (the entries'
+			// fields were compared with the supplied settings by the meaning oracle above)
+			if a.b.err == nil && a.b.pan == "" && a.b.vb.Kind == "group" {
+				for _, m := range cfg.VerifGroupAccessC08(a.b.prof) {
+					c.Fail("accessor", "accessor:group:"+strings.SplitN(m, "#", 2)[0], "Group accessor differs from the active entry: "+m, in)
+				}
+				c.Count("group-accessors")
+			}
 		} else {
 			c.Count("outside-domain")
 		}
